@@ -161,7 +161,7 @@ spec fn step(c1: Config, c2: Config, l: Label) -> bool {
             c2.k =~= c1.k.skip(1) && c2.ctx == c1.ctx
         } else {
             c2.k =~= seq![Frame::Block(body), Frame::Loop { var, bound, body, counter: 0 }] + c1.k.skip(1)
-                && exists|cm: EvalContext| #[trigger] is_push(c1.ctx, cm) && is_bind(cm, var, 0, c2.ctx)
+                && exists|cm: EvalContext| #[trigger] cm.wf() && is_push(c1.ctx, cm) && is_bind(cm, var, 0, c2.ctx)
         },
         // the body runs for as long as the condition evaluates non-zero; while opens no scope
         Frame::While { cond, body } => l is Silent && c2.ctx == c1.ctx
@@ -270,8 +270,8 @@ proof fn lemma_step_lift(c1: Config, c2: Config, l: Label, suffix: Seq<Frame>)
             assert(d1.k.skip(1) =~= c1.k.skip(1) + suffix);
             if bound <= 0 { assert(d2.k =~= d1.k.skip(1)); } else {
                 assert(d2.k =~= seq![Frame::Block(body), Frame::Loop { var, bound, body, counter: 0 }] + d1.k.skip(1));
-                let cm = choose|cm: EvalContext| #[trigger] is_push(c1.ctx, cm) && is_bind(cm, var, 0, c2.ctx);
-                assert(is_push(d1.ctx, cm) && is_bind(cm, var, 0, d2.ctx));
+                let cm = choose|cm: EvalContext| #[trigger] cm.wf() && is_push(c1.ctx, cm) && is_bind(cm, var, 0, c2.ctx);
+                assert(cm.wf() && is_push(d1.ctx, cm) && is_bind(cm, var, 0, d2.ctx));
             }
         }
         Frame::While { cond, body } => {
